@@ -2,8 +2,8 @@ package props
 
 import (
 	"context"
-	"runtime"
 	"fmt"
+	"runtime"
 	"sync"
 	"sync/atomic"
 	"time"
